@@ -146,6 +146,8 @@ def op_des(cmd):
     cls = ns.get_class(t)
     b = bytes.fromhex(cmd["hex"])
     frags = [memoryview(b)] if not cmd.get("fragments") else [memoryview(b[i:j]) for i, j in zip([0] + cmd["fragments"], cmd["fragments"] + [len(b)])]
+    if cmd.get("nofrag") and not b:
+        frags = []
     o = ns.deserialize(cls, frags)
     if o is None:
         return {"st": "none"}
